@@ -84,6 +84,8 @@ func runProbes(id string, ob *Oblig, o checkOpts) (string, bool) {
 		if c.failed {
 			anyFailed = true
 			outs = append(outs, fmt.Sprintf("PROBE FAILED on the real code: %s\n%s", p.file, c.out))
+		} else if strings.Contains(c.out, "[build failed]") || strings.Contains(c.out, "[setup failed]") {
+			outs = append(outs, fmt.Sprintf("probe could not be built against this tree: %s\n%s", p.file, firstN(c.out, 800)))
 		} else {
 			outs = append(outs, fmt.Sprintf("probe passed: %s", p.file))
 		}
